@@ -99,7 +99,9 @@ func genValue(t *rapid.T, o option, label string) string {
 	// free string: no leading/trailing white space, no "${" (the properties
 	// format defines expansion there)
 	if rapid.Bool().Draw(t, label+"simple") {
-		return rapid.SampledFrom([]string{"value", "x", "some/path.txt", "a b c", "k=v", "#hash", "!bang", "c:\\dir\\file", "ünï©ode", "\"quoted\"", "'single'", "a,b;c", "$HOME", "100%", "tab\tinside", "-dash", "--double", "a=b=c", "{{x}}"[0:1] + "curly}"}).Draw(t, label)
+		return rapid.SampledFrom([]string{"value", "x", "some/path.txt", "a b c", "k=v", "#hash", "!bang", "c:\\dir\\file", "ünï©ode", "\"quoted\"", "'single'", "a,b;c", "$HOME", "100%", "tab\tinside", "-dash", "--double", "a=b=c",
+			// values that look like fabio's own meta arguments when they stand alone on the command line
+			"v", "version", "cfg", "cfg=/etc/other.properties", "test.run", "test.v", "h", "help", "{{x}}"[0:1] + "curly}"}).Draw(t, label)
 	}
 	s := rapid.StringMatching(`[!-~¡-ÿ]([ -~¡-ÿ]{0,14}[!-~¡-ÿ])?`).Draw(t, label)
 	return strings.ReplaceAll(s, "${", "$(")
